@@ -426,5 +426,5 @@ package db
 //@ func cdbdriver.GetLocationByMap
 //@ flag unclaimed bounds/cachedCIDRMask|bounds/currentCIDRMask
 //@ requires ipnet != nil
-//@ ensures[family] result2 == nil && result0 != nil && uf.isv4ip(ipnet.IP) ==> result1 >= 96
+//@ ensures[family] result2 == nil && result0 != nil && uf.isv4ip(old(ipnet.IP)) ==> result1 >= 96
 //@ loop 1 invariant 0 <= i && i <= 16
